@@ -126,7 +126,8 @@ def impl(job):
 
 def qimpl(job):
     """print.once / print.onmatch: which lines print"""
-    qual, filt, rows, fname = job
+    qual, filt, rows, fname = job[:4]
+    named = ', "report"' if (len(job) > 4 and job[4]) else ""      # a second argument sends the print to a named printout
     from csvpath import CsvPath
     from csvpath.util.printer import TestPrinter
     gen.write_rows(fname, rows)
@@ -137,7 +138,7 @@ def qimpl(job):
             tp = TestPrinter()
             p.add_printer(tp)
             p.config.csvpath_errors_policy = ["raise"]
-            p.parse(f'${fname}[1*][ print{qual}("L$.csvpath.line_number") {filt} ]')
+            p.parse(f'${fname}[1*][ print{qual}("L$.csvpath.line_number"{named}) {filt} ]')
             lines = p.collect()
         out["printed"] = list(tp.lines)
         out["matched"] = [l[0] for l in lines]
@@ -197,10 +198,10 @@ def run(ctx):
         rows = gen_rows(rng)
         qual = rng.choice(["", ".once", ".onmatch", ".onmatch.once"])
         filt = rng.choice(["yes()", "eq(line_number(), 2)", "gt(line_number(), 1)", "no()", 'in(#a, "1|22|7")'])
-        qjobs.append((qual, filt, rows, f"c16q_{i}.csv"))
+        qjobs.append((qual, filt, rows, f"c16q_{i}.csv", rng.random() < 0.4))
     qres = pmap(ctx, qimpl, qjobs, chunksize=8)
     qlits, qidx = [], []
-    for k, ((qual, filt, rows, _), o) in enumerate(zip(qjobs, qres)):
+    for k, ((qual, filt, rows, _, _named), o) in enumerate(zip(qjobs, qres)):
         if o["exc"]:
             continue
         matched = [rows[i][0] in o["matched"] for i in range(1, len(rows))]
@@ -215,7 +216,7 @@ def run(ctx):
             what = "a printed entry is not the template with its references replaced by the current values (every other character unchanged)" if other else "printing a generated template raised"
         else:
             k = qidx[sorted(qbad["c16q_agree"])[0]] if qbad["c16q_agree"] else [i for i, o in enumerate(qres) if o["exc"]][0]
-            c = {"qualifier": qjobs[k][0], "filter": qjobs[k][1], "rows": qjobs[k][2], "impl": qres[k]}
+            c = {"qualifier": qjobs[k][0], "filter": qjobs[k][1], "rows": qjobs[k][2], "named_printout": qjobs[k][4], "impl": qres[k]}
             what = "print.once / print.onmatch did not print on exactly the lines the qualifiers allow"
         ctx.violation("verbatim", {"what": what, "case": c, "more": [case(i) for i in other[1:3]], "failures": len(other) + len(excs) + len(qbad["c16q_agree"])})
     elif not d9 and [i for i in bad["c16_agree false"] if i < nj]:
@@ -227,7 +228,7 @@ def run(ctx):
         "rule": "templates of 1-5 chunks: text over letters, digits, spaces and 27 punctuation characters (no '$', no '\"'), references of 17 kinds (variables plain/key/index/length/unknown, "
                 "headers by name/index/unknown, metadata, csvpath fields) adjacent (one terminator character apart), many characters apart, at start and end; printed by "
                 "[ @x = #a @n = count_scans() push(\"st\", #b) @t.k = #c print(\"...\") ] on every line of files with padded/empty/comma cells and ragged rows; + touching-reference templates; "
-                "+ print / .once / .onmatch / .onmatch.once with 5 filters. Non-trivial = distinct templates with >= 2 references.",
+                "+ print / .once / .onmatch / .onmatch.once with 5 filters, 40% to a named printout. Non-trivial = distinct templates with >= 2 references.",
         "samples": [case(0), case(nj)],
         "templates": len(jobs), "touching_templates": len(tjobs), "qualifier_runs": len(qjobs), "exceptions": len(excs),
         "traces_validated_against_impl": nj - len([i for i in bad["c16_agree false"] if i < nj]) + len(qlits) - len(qbad["c16q_agree"]),
